@@ -7,9 +7,12 @@ cd "$(dirname "$0")/.."
 id=$1; k=$2; shift 2; checks="${*:-$id}"
 wt=/tmp/seed_$id; src=$wt/SEED/$k; out=seeded/$id-$k
 mkdir -p $out; cp $src/* $out/ 2>/dev/null
-cmd=$(python3 -c "import json;print(json.load(open('$src/meta.json'))['demo_cmd'])")
+cmd=$(python3 -c "import json,re;print(re.sub(r'\s+\(env:.*$','',json.load(open('$src/meta.json'))['demo_cmd']))")
 git -C $wt checkout -q -- . ; git -C $wt clean -fdq -e SEED >/dev/null
-run_demo() { ( cd $wt && GO=$GO timeout 1500 bash -c "$cmd" ) > $out/demo_$1.log 2>&1; echo $?; }
+ddir=$(python3 -c "import json,re;m=re.match(r'[\\w./-]+',json.load(open('$src/meta.json'))['demo_dir'].strip());print(m.group(0).rstrip('/') if m else '.')")
+run_demo() {
+  if ! echo "$cmd" | grep -q 'cp '; then mkdir -p $wt/$ddir; for f in $src/*_test.go; do cp $f $wt/$ddir/zz_seed_$(basename $f); done; fi
+  ( cd $wt && GO=$GO timeout 1500 bash -c "$cmd" ) > $out/demo_$1.log 2>&1; echo $?; }
 base=$(run_demo clean)
 git -C $wt clean -fdq -e SEED >/dev/null; git -C $wt checkout -q -- .
 if ! git -C $wt apply $src/patch.diff; then echo "$id-$k PATCH-DOES-NOT-APPLY"; exit 3; fi
